@@ -110,7 +110,7 @@ def run(ctx: Ctx) -> None:
                     raise MachineryError(f"execution of {scn.name} failed in the harness: {t['harness_error']}")
             # the model places "the request took effect, the client saw an error" at the pointer write only (elsewhere it is
             # indistinguishable from a failure of the next request as far as leftovers are concerned)
-            traces = [t for t in traces if not any(e["k"] == "Fault" and e.get("when") == "after" and not (e.get("cls") == "hint" and e.get("op") in ("write_file", "write_file_cas")) for e in t["events"])]
+            traces = [t for t in traces if not any(e["k"] == "Fault" and e.get("when") == "after" and not (e.get("cls") in ("hint", "meta") and e.get("op") in ("write_file", "write_file_cas")) for e in t["events"])]
             n_fault = sum(1 for t in traces if any(e["k"] == "Fault" for e in t["events"]))
             ctx.cov["faults_delivered"] = ctx.cov.get("faults_delivered", 0) + n_fault
             for lo in range(0, len(traces), 120):
